@@ -235,6 +235,9 @@ func caseC08(t TB, prog *Program) {
 		vshim.SetClock(vshim.ClockScaled, 50)
 		vshim.SetIntensity(0)
 		e := NewEnv(t, prog, RunOpts{NoObs: true})
+		if err := e.db.Create(&Other{}, sod.DefaultSchema); err != nil {
+			e.failf("Create second collection: %v", err)
+		}
 		e.Run()
 		known := append([]string(nil), e.m.live...)
 		base := map[string]*Doc{}
